@@ -291,7 +291,7 @@ func cmdC01(o opts) {
 	{
 		protos := allProtos()
 		ix := defIndex(protos)
-		allD := findDialect("all")
+		allD := findDialect("allplus")
 		drw := mustRW(allD)
 		nm := 40
 		if thorough {
